@@ -6,7 +6,8 @@ From HV Require Import Base.SortSpec Model.Ref Model.DepKeys Proofs.RefProofs Pr
 
 (* reference targets: whatever order they were collected in (map iteration) and whichever sort
    algorithm runs (sort.Sort is not stable), the sequence of (local address, address, position,
-   scope, type, name) of the sorted result is the same *)
+   scope, type, name, definition position) of the sorted result is the same (the implementation's last
+   key, the description text, is not part of the model's targets) *)
 Theorem C03_target_order_is_a_function_of_the_set : forall l l' l1 l2,
   Permutation l l' -> is_sort targets_less l l1 -> is_sort targets_less l' l2 -> map tkey l1 = map tkey l2.
 Proof. exact sort_keys_unique. Qed.
